@@ -85,3 +85,18 @@ V_ENSURES(V_IMP(V_G_UNSTASH(mod, len), !g.itr_nonhead && g.enq_calls == g_enq0 +
 /* ... in ONE handler invocation */
 V_ENSURES(V_IMP(V_G_UNSTASH(mod, len), g.cb_calls == g_cb0 + 1 && g.cb_mod == g_mod && g.cb_q == g.qnew_ret && g.cb_qlen == V_MIN(len, g_S0)))  /*@C16.single-invocation-with-the-unstashed-events*/
 ;
+
+/* ---- new_evt(): an event for a source; a pub/sub message sent by tell/broadcast has NO subscription, so src may be NULL ---------- */
+V_CONTRACT
+void *m_mem_new(size_t size, m_ref_dtor dtor)
+V_REQUIRES(size == sizeof(evt_priv_t))
+V_ASSIGNS(g.memnew_calls)
+V_ENSURES(__CPROVER_is_fresh(V_RET, sizeof(evt_priv_t)) && g.memnew_calls == V_OLD(g.memnew_calls) + 1)
+;
+V_CONTRACT
+evt_priv_t *new_evt(ev_src_t *src)
+V_REQUIRES(v_base_ok() && (src == NULL || (src == g_src && V_R_OK(g_src, sizeof(ev_src_t)))))
+V_ASSIGNS(g.memnew_calls, g.ref_calls, g.ref_arg)
+V_ENSURES(V_IMP(!g_alloc_fails, V_RET != NULL && V_RET->src == src && V_RET->evt.type == (src ? src->type : M_SRC_TYPE_PS)))                  /*@C02.event-for-a-message-without-subscription*/
+V_ENSURES(V_IMP(!g_alloc_fails && src != NULL, g.ref_calls == V_OLD(g.ref_calls) + 1 && g.ref_arg == (void *)src))                            /*@C04.event-holds-a-reference-on-its-source*/
+;
